@@ -32,10 +32,20 @@ Definition size_uint_accepts (v i : Z) : bool :=
   | None => false
   end.
 
+(* control.rs:603 / :605 / :649 / :652  plus_operation: `value + controller` on usize, and
+   `*value as isize + controller` / `value + *controller as isize` on isize.  A literal >= 0 is a
+   UintValue (usize), a negative one an IntValue (isize).  Debug builds panic on overflow. *)
+Definition plus_checked (a b : Z) : option Z :=
+  if (0 <=? a) && (0 <=? b) then (let r := a + b in if in_u64 r then Some r else None)
+  else let a' := if 0 <=? a then wrap_i64 a else a in
+       let b' := if 0 <=? b then wrap_i64 b else b in
+       let r := a' + b' in if in_i64 r then Some r else None.
+
 (* ---------- rendering for the oracle / vm_compute slice ---------- *)
-(* op 0: n * 1000 (checked)   op 1: try_into::<i64>   op 2: `uint .size a` on b
+(* op 0: n * 1000 (checked)   op 1: try_into::<i64>   op 2: `uint .size a` on b   op 3: a .plus b
    answers: P = panics, R = returns, A = accepts, J = rejects *)
 Definition arith_report (op : N) (a b : Z) : list N :=
   if (op =? 0)%N then match mul1000_checked a with None => [80%N] | Some _ => [82%N] end
   else if (op =? 1)%N then match try_into_i64 a with None => [80%N] | Some _ => [82%N] end
+  else if (op =? 3)%N then match plus_checked a b with None => [80%N] | Some _ => [82%N] end
   else if size_uint_accepts a b then [65%N] else [74%N].
